@@ -186,6 +186,7 @@ def contract():
         "np.uint8": Opaque("np.uint8", "dtype"), "np.int16": Opaque("np.int16", "dtype"), "np.int32": Opaque("np.int32", "dtype"),
         "ALAW2PCM": Table("ALAW2PCM"), "ULAW2PCM": Table("ULAW2PCM"),
         "VAL": SpecFn(_val), "FLAT": SpecFn(_flat), "COUNT": SpecFn(_count), "SHAPE_OK": SpecFn(_shape_ok), "NRET": SpecFn(_nret),
+        "BUFK": SpecFn(lambda ev: z3.If(16384 / (ev.ex.ctx["c"] * ev.ex.ctx["w"]) > 1, 16384 / (ev.ex.ctx["c"] * ev.ex.ctx["w"]), 1)),
         "CW": SpecFn(lambda ev: ev.ex.ctx["c"] * ev.ex.ctx["w"]), "BLEN": SpecFn(lambda ev: ev.ex.ctx["blen"]),
     }
     c = Contract(
@@ -200,7 +201,7 @@ def contract():
             ("cursor", "pos == sampsdone * CW() or sampsdone == sampcount or (pos == BLEN() and BLEN() - sampsdone * CW() < CW())"),
             ("cursor_bounds", "sampsdone * CW() <= pos <= BLEN()"),
             ("decoded", "forall(t, 0, sampsdone * chancount, data[t] == VAL(t))"),
-            ("buf", "buf_size >= CW() and buf_size % CW() == 0"),
+            ("buf", "buf_size == BUFK() * CW() and BUFK() >= 1"),
         ])},
         ensures=[
             ("sample_count", "implies(not shorten, COUNT(result) == NRET() * chancount)"),
